@@ -17,6 +17,15 @@
 //	        race, no panic, consistent load state afterwards.
 //	gcs     k goroutines query one gcs.Filter; every answer equals the sequential
 //	        one and the filter's bytes are unchanged.
+//	multi   2 or 4 INDEPENDENT filters, goroutine g works on filter g mod F
+//	        (outpoint insertions and queries, transaction matching): filters share
+//	        nothing, so no race may be reported across them, every goroutine reads
+//	        its own insertions, and each array equals the OR of the insertions made
+//	        into THAT filter (state shared between filters - a package-level scratch
+//	        buffer, a cache - shows up here and nowhere else).
+//
+// adders and churn also call bloom.GetMatchedIndices (the block scan built on
+// MatchTxAndUpdate) concurrently with the other operations.
 package main
 
 import (
@@ -176,6 +185,21 @@ func childAdders(p params, churn bool) childOut {
 						n++
 					}
 				case c < 14:
+					if r.Intn(4) == 0 && (churn || p.Flags == uint32(wire.BloomUpdateAll)) {
+						// the block scan, concurrently with everything else: two transactions paying to inserted elements
+						t1, t2 := mkTx(r, known[r.Intn(len(known))]), mkTx(r, known[r.Intn(len(known))])
+						h1, h2 := t1.Hash(), t2.Hash()
+						blk := bchutil.NewBlock(&wire.MsgBlock{Transactions: []*wire.MsgTx{t1.MsgTx(), t2.MsgTx()}})
+						got := bloom.GetMatchedIndices(blk, f)
+						n++
+						if !churn {
+							mine = append(mine, refOutpoint(h1[:], 0), refOutpoint(h2[:], 0))
+							if !got[0] || !got[1] {
+								violate("C20:matchtx", "GetMatchedIndices missed a transaction paying to an inserted element", map[string]interface{}{"goroutine": g})
+							}
+						}
+						continue
+					}
 					f.Matches(r.Bytes(r.Intn(40)))
 					n++
 				case c < 15:
@@ -244,6 +268,125 @@ func childAdders(p params, churn bool) childOut {
 			}
 		}
 		violate("C20:lost_insertion", "the array after the join is not the OR of all insertions (BIP37 reference)", map[string]interface{}{"bytes_missing_bits": missing})
+	}
+	out.Violations = viol
+	return out
+}
+
+// childMulti: several independent filters used at the same time (see the package comment)
+func childMulti(p params) childOut {
+	out := childOut{Params: p, Race: raceEnabled}
+	rng := vh.NewRNG(p.Seed)
+	nf := 2
+	if p.Goroutines >= 8 {
+		nf = 4
+	}
+	type fstate struct {
+		f     *bloom.Filter
+		init  []byte
+		tweak uint32
+	}
+	known := rng.Bytes(20)
+	fs := make([]fstate, nf)
+	for i := range fs {
+		tw := p.Tweak + uint32(i)*0x9e3779b9
+		f := bloom.LoadFilter(&wire.MsgFilterLoad{Filter: make([]byte, p.Size), HashFuncs: p.HashFuncs, Tweak: tw, Flags: wire.BloomUpdateAll})
+		f.Add(known)
+		fs[i] = fstate{f, append([]byte(nil), f.MsgFilterLoad().Filter...), tw}
+	}
+	var mu sync.Mutex
+	var viol []childViolation
+	violate := func(key, what string, info interface{}) {
+		mu.Lock()
+		if len(viol) < 5 {
+			viol = append(viol, childViolation{key, what, info})
+		}
+		mu.Unlock()
+	}
+	items := make([][][]byte, p.Goroutines)
+	var ops int64
+	start := make(chan struct{})
+	var wg sync.WaitGroup
+	for g := 0; g < p.Goroutines; g++ {
+		wg.Add(1)
+		r := rng.Fork(fmt.Sprintf("g%d", g))
+		go func(g int, r *vh.RNG) {
+			defer wg.Done()
+			defer func() {
+				if e := recover(); e != nil {
+					violate("C20:panic", fmt.Sprintf("a filter operation panicked while another filter was in use: %v", e), nil)
+				}
+			}()
+			f := fs[g%nf].f
+			<-start
+			var mine [][]byte
+			n := int64(0)
+			for j := 0; j < p.PerG; j++ {
+				switch c := r.Intn(10); {
+				case c < 4:
+					var h chainhash.Hash
+					copy(h[:], r.Bytes(32))
+					op := wire.NewOutPoint(&h, r.U32())
+					f.AddOutPoint(op)
+					mine = append(mine, refOutpoint(h[:], op.Index))
+					if !f.MatchesOutPoint(op) {
+						violate("C20:read_your_insert", "MatchesOutPoint(o) begun after AddOutPoint(o) returned is false (several filters in use)", map[string]interface{}{"goroutine": g, "filter": g % nf})
+					}
+					n += 2
+				case c < 6:
+					d := r.Bytes(vh.Pick(r, []int{1, 20, 32, 36}))
+					f.Add(d)
+					mine = append(mine, d)
+					if !f.Matches(d) {
+						violate("C20:read_your_insert", "Matches(x) begun after Add(x) returned is false (several filters in use)", map[string]interface{}{"goroutine": g, "filter": g % nf})
+					}
+					n += 2
+				case c < 8:
+					tx := mkTx(r, known)
+					th := tx.Hash()
+					got := f.MatchTxAndUpdate(tx)
+					mine = append(mine, refOutpoint(th[:], 0))
+					if !got || !f.MatchesOutPoint(wire.NewOutPoint(th, 0)) {
+						violate("C20:matchtx", "MatchTxAndUpdate missed a paying transaction or its outpoint (several filters in use)", map[string]interface{}{"goroutine": g, "filter": g % nf})
+					}
+					n += 2
+				default:
+					var h chainhash.Hash
+					copy(h[:], r.Bytes(32))
+					f.MatchesOutPoint(wire.NewOutPoint(&h, r.U32()))
+					n++
+				}
+			}
+			items[g] = mine
+			atomic.AddInt64(&ops, n)
+		}(g, r)
+	}
+	close(start)
+	wg.Wait()
+	out.Ops = ops
+	for i, st := range fs {
+		ref := refFromBytes(st.init, p.HashFuncs, st.tweak)
+		for g, mine := range items {
+			if g%nf != i {
+				continue
+			}
+			for _, it := range mine {
+				ref.insert(it)
+			}
+		}
+		if got, want := st.f.MsgFilterLoad().Filter, ref.bytes(); !bytes.Equal(got, want) {
+			missing, extra := 0, 0
+			for k := range want {
+				if want[k]&^got[k] != 0 {
+					missing++
+				}
+				if got[k]&^want[k] != 0 {
+					extra++
+				}
+			}
+			violate("C20:lost_insertion", "with several filters in use, a filter's array is not the OR of the insertions made into it (BIP37 reference)",
+				map[string]interface{}{"filter": i, "bytes_missing_bits": missing, "bytes_with_foreign_bits": extra})
+		}
 	}
 	out.Violations = viol
 	return out
@@ -485,6 +628,8 @@ func main() {
 			co = childAdders(p, true)
 		case "gcs":
 			co = childGCS(p)
+		case "multi":
+			co = childMulti(p)
 		}
 		j, _ := json.Marshal(co)
 		vh.Must(os.WriteFile(*childOutF, j, 0o644))
@@ -540,6 +685,9 @@ func main() {
 			if k > 1 {
 				runChild(params{Scenario: "churn", Goroutines: k, PerG: perG, Size: 1 + r.Intn(64), HashFuncs: uint32(r.Intn(51)), Tweak: r.U32(), Flags: uint32(r.Intn(3)), Seed: r.U64()})
 				runChild(params{Scenario: "gcs", Goroutines: k, PerG: 400 / k * 4, Seed: r.U64()})
+				if k == 2 || k == 8 || k == 32 || cfg.Thorough() || cfg.Search {
+					runChild(params{Scenario: "multi", Goroutines: k, PerG: perG, Size: vh.Pick(r, []int{8, 64, 512}), HashFuncs: uint32(1 + r.Intn(10)), Tweak: r.U32(), Flags: uint32(wire.BloomUpdateAll), Seed: r.U64()})
+				}
 			}
 		}
 	}
